@@ -194,6 +194,19 @@ func judgeC16(rep *lib.Report, c *lib.Ctx, ln *printerLine, res *realResult, kas
 			rep.Violate("routes:differ", fmt.Sprintf("%s: route %s gives %q, the direct call %q", desc, r.name, out, direct), kase)
 		}
 	}
+	// StringWithoutMarkers(f) is Sprint(f) with the markers stripped
+	if !printf && len(args) == 1 {
+		if sf, ok := args[0].(redact.SafeFormatter); ok {
+			guard("StringWithoutMarkers", func() []byte {
+				got := redact.StringWithoutMarkers(sf)
+				rep.AddEval(1)
+				if want := string(lib.Strip(direct)); got != want {
+					rep.Violate("routes:string-without-markers", fmt.Sprintf("%s: StringWithoutMarkers gives %q, Sprint without its markers %q", desc, got, want), kase)
+				}
+				return nil
+			})
+		}
+	}
 	// what a route returned stays what it was, whatever is printed afterwards
 	_ = redact.Sprintf("%s|%d|%v", "xxxxxxxxxxxxxxxxxxxxxxxxxxxxxxxx", 123456789, redact.Safe("yyyyyyyyyyyyyyyyyyyyyyyy"))
 	_ = redact.Sprint("zzzzzzzzzzzzzzzzzzzzzzzzzzzzzzzzzzzzzzzzzzzzzzzz", 1)
